@@ -633,6 +633,11 @@ class _Helpers:
     def isinf(x):
         return x == float('inf')
 
+    @staticmethod
+    def isint(x):
+        # a whole number up to the rounding error of one scaling (native cross-check works in floats)
+        return abs(float(x) - round(float(x))) <= 1e-9 * max(1.0, abs(float(x)))
+
 
 NATIVE_NS = {k: getattr(_Helpers, k) for k in dir(_Helpers) if not k.startswith('_') and not k.startswith('tol')}
 NATIVE_NS['inf'] = float('inf')
